@@ -13,6 +13,7 @@ RULE = ('seeded layer DAGs (<= 6 layers, multiple inheritance, class/instance la
         'automaton is replayed over every pid of the trace (parent, resumed children, -j children). '
         'distinct = digest of per-pid hook-site sequence + fired faults + completion order; '
         'non-trivial = a fault fired or children overlapped')
+RULE += (' One seed in ten: the set-up of a layer with 2-3 bases fails after its bases were set up, followed by a layer over one of those bases.')
 RULE += (' ' + 'Later additions: every group of tests that did not run needs a failed set-up attempt of its own.')
 BIAS = dict(profile=dict(p_doctest=0.2, p_hook=0.9, max_layers=6, min_layers=2, p_unit=0.15),
             n_test_faults=[0, 0, 1, 2], n_layer_faults=[0, 1, 1, 2, 3],
@@ -21,7 +22,39 @@ BIAS = dict(profile=dict(p_doctest=0.2, p_hook=0.9, max_layers=6, min_layers=2, 
 
 
 def gen(seed):
-    return _ws.gen_ws(seed, ID, BIAS)
+    spec = _ws.gen_ws(seed, ID, BIAS)
+    if seed % 10 == 8:
+        # the set-up of a layer with several bases fails after its bases were set up (sibling
+        # layers stay behind, no longer a stack of one chain); the layers that run next need
+        # only some of them
+        import random
+        rng = random.Random(seed ^ 0xC0116)
+        world = spec['world']
+        taken = {L['name'] for L in world['layers']}
+        names = [n for n in rng.sample(['Qa', 'Qb', 'Qc', 'Qd', 'Qe', 'Qf'], 5) if n not in taken]
+        if len(names) == 5 and world['modules']:
+            a, b, c, p, l = names
+            hooks = ['setUp', 'tearDown']
+            nb = rng.choice([2, 2, 3])
+            bases = [a, b, c][:nb]
+            for n in bases:
+                world['layers'].append({'name': n, 'kind': 'class', 'bases': [], 'hooks': hooks})
+            world['layers'].append({'name': p, 'kind': 'class', 'bases': bases, 'hooks': hooks})
+            world['layers'].append({'name': l, 'kind': 'class',
+                                    'bases': [rng.choice(bases)], 'hooks': hooks})
+            cls = world['modules'][0]['classes']
+            cls.append({'name': 'TCQ8', 'tests': [{'name': 'test_a'}], 'layer': p})
+            cls.append({'name': 'TCQ9', 'tests': [{'name': 'test_a'}, {'name': 'test_b'}],
+                        'layer': l})
+            if rng.random() < 0.4:
+                cls.append({'name': 'TCQ7', 'tests': [{'name': 'test_a'}],
+                            'layer': rng.choice(bases)})
+            # which set-up fails: the derived layer's own, or the last base's
+            victim = rng.choice([p, p, bases[-1]])
+            spec['plan'].append({'site': 'layer.setUp', 'ident': victim, 'a': 'raise',
+                                 'exc': rng.choice(['ValueError', 'KeyError'])})
+            spec['opt'].pop('layer', None)
+    return spec
 
 
 def run(spec, ctx):
@@ -33,7 +66,8 @@ def run(spec, ctx):
     if res.raised or res.hang:
         # an aborted run is C04's finding; the automaton still applies to what happened before
         viols = [v for v in viols if v['sig'] != 'C01/not-torn-down']
-    elif T.nie and not spec['opt'].get('x'):
+    elif T.nie and (not spec['opt'].get('x') or not T.anything_bad()):
+        # (-x ends a run only once something has failed)
         miss = _ws.unrun_selected(m, spec, res, T)
         if miss and not any(c['died'] or not c['report_complete'] for c in res.children):
             viols.append({'sig': 'C01/owed-tests-not-run-after-NotImplementedError',
